@@ -368,6 +368,33 @@ def traced_outcomes():
                 if rec is None or rec.result is not value:
                     out.append(f"{label}: the recorded outcome is {getattr(rec, 'result', rec)!r}, not the result itself")
     asyncio.run(prog())
+
+    async def spawning():
+        # transparency towards ctx.spawn: what a traced coroutine spawns belongs to the caller's scope, as without `traced`
+        for label, deco in (("plain", lambda f: f), ("traced", traced)):
+            gate = asyncio.Event()
+            order = []
+
+            @deco
+            async def launch():
+                async def worker():
+                    await gate.wait()
+                    order.append("worker done")
+                return ctx.spawn(worker)
+            async with ctx.scope("caller"):
+                try:
+                    handle = await asyncio.wait_for(launch(), 0.5)
+                except BaseException as e:  # noqa
+                    out.append(f"{label} coroutine that spawns a task and returns its handle: the call ended with {e!r} "
+                               f"(it waited for the task it spawned)")
+                    gate.set()
+                    continue
+                order.append("call returned")
+                gate.set()
+                await handle
+            if order != ["call returned", "worker done"]:
+                out.append(f"{label} coroutine that spawns a task: order {order}")
+    asyncio.run(spawning())
     return out[:3]
 
 
